@@ -189,8 +189,7 @@ class Cone:
     def has_attr(self, *suffixes):
         """Some loaded access path ends with one of the given attribute names."""
         for a in self.attrs:
-            last = a.split(".")[-1]
-            if last in suffixes:
+            if any(part in suffixes for part in a.split(".")[1:]):
                 return True
         return False
 
